@@ -127,7 +127,7 @@ def case_block(ds, jnp, case, res, fail):
          (len(bad), len(res["ref"]), bad[0]))
 
 
-def gen_psd(rng, d, ps, cr, spread):
+def gen_psd(rng, d, ps, cr, spread, scale=None):
   """Float64 PSD matrix of size d whose leading ps x ps block has a prescribed spectrum with a
   gap at the cut; rows/cols >= ps carry non-zero garbage (the code must mask it)."""
   m = ps
@@ -140,6 +140,8 @@ def gen_psd(rng, d, ps, cr, spread):
     lam.append(x)
     x *= (1.25 + 0.5 * rng.unit()) * (spread ** (1.0 / max(m - 1, 1)))
   lam = np.array(lam)  # ascending, consecutive ratio >= 1.25 everywhere (so also at the cut)
+  if scale is not None and m:
+    lam = lam * (scale / lam[-1])       # top eigenvalue = scale
   B = (Qm * lam) @ Qm.T
   B = (B + B.T) / 2
   A = np.zeros((d, d))
@@ -159,7 +161,7 @@ def case_root(ds, jax, jnp, case, res, fail):
   rng = common.SplitMix64(case["seed"])
   r = abs(cr)
   real = d if ps is None else ps
-  A = gen_psd(rng, d, real, cr, case["spread"])
+  A = gen_psd(rng, d, real, cr, case["spread"], case.get("scale"))
   cap = dict(eigh=[], power=[], pi=[])
   o_eigh, o_power, o_pi = jnp.linalg.eigh, jnp.power, ds.power_iteration
 
